@@ -650,8 +650,12 @@ def obj2bytes(obj):
     elif isinstance(obj, dict):
         return obj2bytes(sorted(obj.items()))
     elif isinstance(obj, lmfit.parameter.Parameter):
-        return obj2bytes([obj.value, obj.max, obj.min, obj.vary,
-                          obj.expr, obj.name])
+        attrs = [obj.value, obj.max, obj.min, obj.vary, obj.expr, obj.name]
+        if obj.brute_step is not None:
+            # step size of the "brute" method (influences the result);
+            # hashes of parameters without it are not affected
+            attrs.append(obj.brute_step)
+        return obj2bytes(attrs)
     else:
         raise ValueError("No rule to convert object '{}' to string.".
                          format(obj.__class__))
